@@ -137,15 +137,20 @@ def trace_selftest():
     cases.append(("forward-without-decrement", seg[:k] + [dict(seg[k], ttl_out=seg[k]["ttl_in"])] + seg[k + 1:], {"forward"}))
     seg = c10[0]
     k = pick(seg, "send", lambda l: l["fromsvc"] == "unreach")
-    cases.append(("owed-notice-never-sent", seg[:k] + [l for l in seg[k + 1:] if not (l["ev"] in ("forward", "publish", "socket", "absorb") and
-                  (l.get("fromsvc") == "unreach" or l["ev"] in ("publish", "socket")))], {"end", "forward", "publish", "socket"}))
-    k = pick(seg, "expire", lambda l: l["notice"])
-    cases.append(("expiry-with-budget-left", seg[:k] + [dict(seg[k], n=seg[k]["from"])] + seg[k + 1:], {"expire"}))
+    cases.append(("owed-notice-never-sent", seg[:k] + [{"ev": "end", "strict": False}], {"end"}))
+    seg = next(sg for sg in c10 if pick(sg, "expire", lambda l: l["notice"] and l["n"] != l["from"]) is not None)
+    k = pick(seg, "expire", lambda l: l["notice"] and l["n"] != l["from"])
+    cases.append(("expiry-at-a-node-where-the-packet-is-not", seg[:k] + [dict(seg[k], n=seg[k]["from"])] + seg[k + 1:], {"expire"}))
+    k = pick(seg, "forward", lambda l: l["ttl_in"] >= 2)
+    cases.append(("expiry-with-budget-left", seg[:k] + [{"ev": "expire", "n": seg[k]["n"], "from": seg[k]["from"], "fromsvc": seg[k]["fromsvc"],
+                  "to": seg[k]["to"], "tosvc": seg[k]["tosvc"], "notice": True}] + seg[k + 1:], {"expire"}))
     seg = c16[0]
     k = pick(seg, "socket")
-    cases.append(("notice-to-another-socket", seg[:k] + [dict(seg[k], svc=other_svc)] + seg[k + 1:], {"socket"}))
+    cases.append(("notice-to-another-socket", seg[:k] + [dict(seg[k], svc="t99997")] + seg[k + 1:], {"socket"}))
     k = pick(seg, "unknown", lambda l: not l["local"])
     cases.append(("unknown-service-although-open", seg[:k] + [{"ev": "open", "n": seg[k]["n"], "svc": seg[k]["tosvc"]}] + seg[k:], {"unknown"}))
+    k = pick(seg, "send", lambda l: l["fromsvc"] == "unreach")
+    cases.append(("notice-about-other-addresses", seg[:k] + [dict(seg[k], note=dict(seg[k]["note"], tosvc=seg[k]["note"]["fromsvc"], fromsvc=seg[k]["note"]["tosvc"]))] + seg[k + 1:], {"notice_send"}))
     out = []
     for name, lines, classes in cases:
         f = os.path.join(wd, name + ".ndjson")
